@@ -45,6 +45,8 @@ def shards(tier, seed):
             'rand': 300 if q else 6000,
             'deep': ([32, 64] if i == 1 else []) if q
             else ([32, 64, 200, 480] if i in (1, 2) else []),
+            'deep_fault': ([8, 16, 24, 40] if i == 3 else []) if q
+            else ([4, 8, 12, 16, 24, 32, 40, 60] if i in (5, 6) else []),
             'big': ([131000] if i == 2 else []) if q
             else ([4000, 131000] if i in (3, 4) else []),
         })
@@ -98,18 +100,12 @@ def run_case(case, rec):
     wit = {'data': data if n <= 8192 else data[:256], 'label': label,
            'trace': bool(traced), 'len': n}
     if o.exceeded:
-        mech = 'budget:' + o.exceeded.split('>')[0]
         try:
             ftype = data[0]
         except IndexError:
             ftype = None
-        if o.exceeded.startswith(('calls', 'jumps')):
-            if ftype == 2:
-                mech = 'flag-word-continuation-not-advancing'
-            elif ftype == 1 and (b'A' in data):
-                mech = 'no-progress-loop:method-frame'
-            else:
-                mech = 'no-progress-loop:type-%s' % ftype
+        mech = 'step-budget:%s:frame-type-%s' % (o.exceeded.split('>')[0],
+                                                 ftype)
         rec.violation(mech, 'frame.unmarshal of %d bytes exceeded its step '
                       'budget (%s; budget calls %d, jumps %d, copied %d)'
                       % (n, o.exceeded, b['calls'], b['jumps'], b['copied']),
@@ -160,7 +156,7 @@ def gates(m, tier):
         if f not in fr:
             out.append('loop function %s never entered' % f)
     for k in ('byte', 'inner-truncation', 'random', 'deep-method',
-              'big-array-of-void'):
+              'big-array-of-void', 'deep-fault'):
         if not m.counters.get('inputs:' + k):
             out.append('no input of class %s' % k)
     if not m.counters.get('memory_traced_calls'):
